@@ -16,6 +16,7 @@ TECH = "contract-based deductive verification: sidecar contracts + VC generation
 NOTE = "Trusted: pyvc's encoding of the Python subset, z3/cvc5, C09 call-site contracts, children/trivia as oracles under the generic contract G with the grammar-level induction as a paper argument, regex semantics of the terminal shapes. Partial correctness (termination not decided). Replay searches (replay/diff4, bounded) only concretise refutations. Generated-code side of this property is carried by C01."
 CLAIMED.update({
     "C01": {"level": "proof", "text": "The code emitted by the real generate() of every Expression subclass (obtained on every run by calling the real generator with stub children), by Rule.generate (12 modifier/name instances), generate_parse_trivia (8 configurations) and the emitted parse() entry point is proved to refine the same contract K as the interpreter's parse() - result, position, stacks, atomic depth, tags, furthest-failure bookkeeping, delivered pairs - for all inputs, start positions, states and child behaviours, with the result flag unassigned at entry and junk left by failing children. 3400+ obligations. Module assembly and byte-identical regeneration are bounded structural checks.", "design_ref": "DESIGN.md section 4 / C01", "note": NOTE.replace(" Generated-code side of this property is carried by C01.", "") + " Bounded: arity of unrolled Sequence/Choice templates (0..3 quick, 0..5 thorough), catalogue of terminal parameters, structural module checks.", "technique": TECH},
+    "C13": {"level": "proof", "text": "ParserState.fail's real body is proved (6 instances of force/rule_name) to keep furthest_pos = max(furthest_pos, pos) inside {-1} + [start_pos, len(input)], to be silent when suppressed or inside a negative predicate, to leave position/stacks/counters untouched and to add only the given rule name (or the name on top of the rule stack) and label to the expected/unexpected maps; ParserState.__init__ establishes the initial state; error_context returns the line/column of the failure position (C14's Spec) and that line, for all texts and offsets. With the furthest-position clauses of every operator proof (C01, C03-C05) the position claim holds for all grammars and inputs. Rendering totality of detailed_message/expected/expected_labels/join_with_limit is a bounded run-time stand-in (closures, str.join, itertools.chain are outside the dialect).", "design_ref": "DESIGN.md section 4 / C13", "note": "Trusted: pyvc's encoding (dicts abstracted as key/label sequences), z3/cvc5, C14's splitlines contract, rstrip opaque, frame argument that rule-stack entries are grammar rules. Not proved: message rendering totality (bounded stand-in over 7 texts x all positions x 12 map shapes).", "technique": TECH},
     "C14": {"level": "proof", "text": "Position.line_col / line_of, Span.lines / __str__ / as_str / start_pos / end_pos / split and Pair.span / line_col are executed symbolically from the current source for an arbitrary text and arbitrary offsets 0 <= p <= len and proved against the declarative line/column Spec of the property (1 + number of line breaks before p, distance from the last line break; the lines a span touches); the splitlines scan by loop invariant. No bound on text length.", "design_ref": "DESIGN.md section 4 / C14", "note": "Trusted: pyvc's encoding of the Python subset, z3/cvc5, the contract of str.splitlines(keepends=True) for '\\n'-separated text (validated on every run by exhaustive comparison over {a,b,\\n}^<=7, bounded). The exhaustive small-scope comparison of the real functions with the Spec is a labelled stand-in.", "technique": TECH},
     "C18": {"level": "proof", "text": "PrattParser.parse_expr is executed symbolically over an arbitrary token sequence, arbitrary prefix/postfix/infix tables (uninterpreted membership/precedence/associativity functions) and free constructor callbacks, and proved to compute the precedence-climbing recurrence that defines binding by declared precedence and associativity: result tree, cursor position, SyntaxError exactly for malformed streams; recursion against its own contract, the operator loop by invariant. Unbounded in tables and stream length.", "design_ref": "DESIGN.md section 4 / C18", "note": "Trusted: pyvc's encoding, z3/cvc5, the recurrence as the meaning of 'binds according to declared precedence' (pest's PrattParser); a declarative binding characterisation is compared on all small tables/streams as a bounded stand-in. Callbacks are pure constructors; Stream.next/peek inlined. Partial correctness.", "technique": TECH},
     "C03": {"level": "proof", "text": "The real parse() of every core operator (literals, ranges, ANY/SOI/EOI, rule references, groups, sequence and choice with symbolic arity, ?, *, +, & and !, normal and silent Rule.parse, Parser.parse) is proved to refine its Spec clause - pest's PEG semantics written from the property text - for all inputs, all parser states and all child behaviours; bounded repetitions are proved to delegate to their unrolled sequences (the unrolled shape is a bounded concrete check).", "design_ref": "DESIGN.md section 4 / C03, Appendix A", "note": NOTE, "technique": TECH},
